@@ -155,9 +155,12 @@ def heap_machine(tier, record, fail):
         def _guard(self, f, *a):
             try:
                 f(*a)
-            except Violation as v:
-                fail(dict(ops=self.hist), str(v))
-                raise
+            except Exception as e:  # noqa
+                from vk.run import classify
+                v = classify(e)
+                if isinstance(v, Violation):
+                    fail(dict(ops=self.hist), str(v))
+                raise v from e
 
         @rule(size=st.one_of(st.sampled_from([1, 4, 4, 8]), st.integers(1, 64)))
         def alloc(self, size):
